@@ -347,10 +347,11 @@ func (r *rewriter) rewrite(n ast.Node) (string, bool) {
 
 var osShims = map[string]string{
 	"Create": "OsCreate", "OpenFile": "OsOpenFile", "Open": "OsOpen", "MkdirAll": "OsMkdirAll", "Mkdir": "OsMkdir",
-	"Stat": "OsStat", "Remove": "OsRemove", "Rename": "OsRename", "ReadFile": "OsReadFile", "CreateTemp": "OsCreateTemp",
+	"Stat": "OsStat", "Remove": "OsRemove", "Rename": "OsRename", "ReadFile": "OsReadFile", "CreateTemp": "OsCreateTemp", "Link": "OsLink",
 }
 var randShims = map[string]string{"Intn": "RandIntn", "Int63n": "RandInt63n", "Int31n": "RandInt31n", "Float64": "RandFloat64", "Int": "RandInt"}
 var signalShims = map[string]string{"Notify": "SignalNotify", "Stop": "SignalStop"}
+var timeShims = map[string]string{"NewTicker": "TimeNewTicker", "NewTimer": "TimeNewTimer", "After": "TimeAfter", "Tick": "TimeTick"}
 
 func (r *rewriter) pkgOf(id *ast.Ident) string {
 	if obj, ok := r.info.Uses[id].(*types.PkgName); ok {
@@ -387,6 +388,11 @@ func (r *rewriter) rewriteCall(call *ast.CallExpr) (string, bool) {
 		case "math/rand":
 			if shim, ok := randShims[sel.Sel.Name]; ok {
 				r.note("rand-shim")
+				return "simrt." + shim + "(" + r.args(call) + ")", true
+			}
+		case "time":
+			if shim, ok := timeShims[sel.Sel.Name]; ok {
+				r.note("timer-skew")
 				return "simrt." + shim + "(" + r.args(call) + ")", true
 			}
 		case "os/signal":
